@@ -70,6 +70,31 @@ def skeleton(slots, k, fixed=None):
     return out
 
 
+def spec_tokens(module):
+    """the token alphabet of an MC_*.tla module (`Tokens == { <<..>>, ... }`), so that the bounded domain TLC model-checks is
+    also the exhaustive input set executed on the implementation"""
+    txt = open(os.path.join(SPEC, module + '.tla')).read()
+    body = txt[txt.index('Tokens == {'):]
+    body = re.sub(r'\\\*[^\n]*', '', body[:body.index('VARIABLES')])
+    names = {'SP': 32, 'HTAB': 9, 'VT': 11, 'FF': 12, 'CR': 13, 'LF': 10}
+    toks = []
+    for m in re.finditer(r'<<([^<>]*)>>', body):
+        toks.append(bytes(names[x.strip()] if x.strip() in names else int(x) for x in m.group(1).split(',')))
+    if len(toks) < 5:
+        raise vlib.MachineryError('cannot read Tokens of ' + module)
+    return toks
+
+
+def token_sequences(tokens, n):
+    """concatenations of at most n tokens (the states of the MC module up to depth n)"""
+    out = [b'']
+    layer = [b'']
+    for _ in range(n):
+        layer = [w + t for w in layer for t in tokens]
+        out += layer
+    return out
+
+
 CLASS_BYTES = [0x00, 0x09, 0x0a, 0x0b, 0x0c, 0x0d, 0x20, 0x21, 0x22, 0x25, 0x2e, 0x2f, 0x30, 0x31, 0x39, 0x3a, 0x3c, 0x41, 0x47, 0x48, 0x50, 0x54,
                0x5b, 0x5c, 0x5e, 0x60, 0x61, 0x7b, 0x7c, 0x7e, 0x7f, 0x80, 0xa0, 0xff]
 
